@@ -1,6 +1,6 @@
 (** Executable entry point of the C13 model for the correspondence check. *)
 From Coq Require Import List ZArith NArith Bool.
-From LV Require Import Base.Sexp Base.Bytes Router.Url ServerFn.ErrorCodec.
+From LV Require Import Base.Sexp Base.Bytes Router.Url ServerFn.ErrorCodec ServerFn.Protocol.
 Import ListNotations.
 Open Scope N_scope.
 
@@ -32,6 +32,33 @@ Definition s_b64 (r : bytes + b64_error) : sexp :=
   end.
 Definition as_purl (pre q f : sexp) : purl :=
   {| u_pre := as_bytes pre; u_query := as_opt as_bytes q; u_frag := as_opt as_bytes f |}.
+
+(** the glue instance of Protocol.v: String codec, ServerFnError<Code>, demo_body *)
+Definition L_text_plain : bytes := [116; 101; 120; 116; 47; 112; 108; 97; 105; 110].  (* "text/plain" *)
+Definition L_api_glue : bytes := [47; 97; 112; 105; 47; 103; 108; 117; 101].  (* "/api/glue" *)
+Definition as_referer (s : sexp) : option referer :=
+  match as_Z (nth_s 0 s) with
+  | 1%Z => Some (RefUrl (as_purl (nth_s 1 s) (nth_s 2 s) (nth_s 3 s)))
+  | 2%Z => Some (RefRaw (from_utf8_lossy (as_bytes (nth_s 1 s))))   (* Req::referer is from_utf8_lossy of the header *)
+  | _ => None
+  end.
+Definition s_result (r : outcome bytes (sfe N)) : sexp :=
+  match r with
+  | Ok y => Lst [sN 0; sbytes y]
+  | Err e => Lst [sN 1; s_err u8_display e]
+  | Panic => Lst [sN 2]
+  end.
+Definition s_response (r : response) : sexp :=
+  Lst [sN (rs_status r); sbytes (rs_body r); sopt sbytes (rs_error_header r);
+       sopt sbytes (rs_location r); sopt sbytes (rs_content_type r)].
+Definition glue_server (ref : option referer) : request -> response :=
+  run_on_server N u8_display bytes bytes str_dec str_enc KDeserialization L_text_plain L_api_glue
+    demo_body (fun _ => match ref with Some r => r | None => RefRaw [] end).
+Definition glue_client_result : response -> outcome bytes (sfe N) * list bytes :=
+  client_result N u8_parse bytes str_dec.
+Definition glue_remote (x : bytes) : outcome bytes (sfe N) * list bytes :=
+  remote N u8_display u8_parse bytes bytes str_enc str_dec str_enc str_dec KDeserialization
+    L_text_plain L_text_plain L_api_glue demo_body (fun _ => RefRaw []) x.
 
 Definition run_C13 (c : sexp) : sexp :=
   let cust := as_N (nth_s 1 c) in
@@ -73,5 +100,24 @@ Definition run_C13 (c : sexp) : sexp :=
       if cust =? 0 then s_err nc_display (decode_err unit nc_parse data)
       else s_err u8_display (decode_err N u8_parse data)
   | 6%Z => sbytes (url_string (strip_error_info (as_purl (nth_s 1 c) (nth_s 2 c) (nth_s 3 c))))
+  (* protocol glue: client side on a canned response *)
+  | 7%Z =>
+      let res := {| rs_status := as_N (nth_s 2 c); rs_body := as_bytes (nth_s 5 c);
+                    rs_error_header := None; rs_location := as_opt as_bytes (nth_s 4 c);
+                    rs_redirect_header := as_bool (nth_s 3 c); rs_content_type := None |} in
+      let r := glue_client_result res in
+      Lst [s_result (fst r); Lst (map sbytes (snd r))]
+  (* server side on a raw request *)
+  | 8%Z =>
+      let ref := as_referer (nth_s 3 c) in
+      s_response (glue_server ref
+        {| rq_data := as_bytes (nth_s 1 c); rq_accept := as_opt as_bytes (nth_s 2 c);
+           rq_referer := option_map referer_string ref |})   (* only its presence matters: glue_server's parse_referer is the constant [ref] *)
+  (* the whole loop, and the direct call *)
+  | 9%Z =>
+      let x := as_bytes (nth_s 1 c) in
+      let r := glue_remote x in
+      Lst [s_result (fst r); Lst (map sbytes (snd r));
+           s_result (direct N bytes bytes demo_body x)]
   | _ => Lst []
   end.
